@@ -4,14 +4,17 @@
 (* written as a third party: neither the declarative template nor the struct-based      *)
 (* fast reader of Hippolyzer is transcribed here; this is the wire layout (47 fields in *)
 (* wire order, each with its presence condition and framing) with                        *)
-(*   - an encoder machine (Init / EmitHeader / EmitField) that builds every payload of  *)
-(*     a bounded domain (flag words x object kinds x content variants) field by field,  *)
+(*   - an encoder machine (Init / EmitRun) that builds every payload of a bounded       *)
+(*     domain (flag words x object kinds x content variants) run by run: the header,    *)
+(*     then up to and including each present variable-length section,                   *)
 (*   - a reference parser Parse(p) (reads the flag word out of the bytes, walks the     *)
 (*     fields) used by the invariants, by the table export and by the trace spec.       *)
 (* TLC checks on the bounded model that the parser reads back exactly what the machine  *)
 (* wrote at every prefix (unique readability), that presence/order are a function of    *)
-(* the low 11 flag bits only, that the length is 84 + the framed sections, and that a   *)
-(* payload cut at any field boundary is malformed.                                      *)
+(* the low 11 flag bits only, that the length is 84 + the framed sections, that a       *)
+(* complete payload is well-formed and canonical, and that it is malformed when cut in  *)
+(* front of / one byte short of the end of any optional or variable-length section, or  *)
+(* extended by a byte (unless the greedy last section is present).                      *)
 (***************************************************************************************)
 EXTENDS Integers, Sequences, FiniteSets, TLC
 
@@ -180,7 +183,8 @@ Content(i, v) == CASE i = FlagsIdx -> LE32(flags + hi)
                    [] i = PCodeIdx -> <<pcode>>
                    [] OTHER -> Variant(Fields[i].name, i, v, v0)
 
-Init == /\ flags \in FlagWords /\ hi \in HighBits /\ pcode \in PCodes /\ v0 \in Variants
+Init == /\ flags \in FlagWords /\ hi \in HighBits /\ pcode \in PCodes
+        /\ v0 \in (IF Product THEN {1} ELSE Variants)      \* v0 also selects the filler of the plain fields
         /\ idx = 1 /\ buf = <<>> /\ emitted = <<>>
 
 \* A step writes a run of fields: from idx up to and including the next present variable-length
